@@ -4,6 +4,7 @@ Model driver for the PBF parts of C01/C02 (exe model_pbf).  One op per line:
   enc  <opts> | <hdr> | <obj> | <obj> …     → hex of `Pbf.encodeFile` (the writer model)
   spec <choices> | <hdr> | <obj> | …        → hex of `PbfSpec.encode` (the specification encoder)
   dec  <ropts> <hex>                        → `ok <dumpHeader> | <dump obj> | …`  or  `err`
+  est  <opts> | <hdr> | <obj> | …           → `S <size()>:<count()> …` of the current block after every object
   proj <opts> | <hdr> | <obj> | …           → `ok <dumpHeader> | <dump obj> | …` of `project opts`
 
 <opts>  = D<0|1>M<0..31>H<0|1>L<0|1>   dense, metadata bits (1 version 2 timestamp 4 changeset 8 uid 16 user), history, locations_on_ways
@@ -106,9 +107,6 @@ def parseROpts (s : String) : Option ROpts := do
   let m ← numAfter s 'M'
   pure { nodes := n != 0, ways := w != 0, relations := r != 0, readMeta := m != 0 }
 
-/-- `static_cast<int64_t>(fix_to_double(c) * lonlat_resolution)` with IEEE doubles -/
-def cvFloat (c : Int) : Int := (Float.ofInt c / 10000000.0 * 1000000000.0).toInt64.toInt
-
 def dumpAll (h : Header) (os : List Object) : String :=
   " | ".intercalate (("ok " ++ dumpHeader h) :: os.map dump)
 
@@ -124,11 +122,24 @@ def handle (line : String) : String :=
     match Driver.words first with
     | ["enc", o] =>
       match parseOpts o, parseCase rest with
-      | some o, some (h, os) => Driver.hex (encodeFile cvFloat o h os)
+      | some o, some (h, os) =>
+        match encodeFile o h os with
+        | some bs => Driver.hex bs
+        | none => "err"
+      | _, _ => "bad-op"
+    | ["est", o] =>
+      match parseOpts o, parseCase rest with
+      | some o, some (_, os) =>
+        let (_, outs) := os.foldl (fun (acc : WState × List String) ob =>
+          let s := acc.1.write o ob
+          (s, match s.cur with
+              | some b => s!"{b.size o}:{b.count}" :: acc.2
+              | none => "-" :: acc.2)) (({} : WState), [])
+        " ".intercalate ("S" :: outs.reverse)
       | _, _ => "bad-op"
     | ["proj", o] =>
       match parseOpts o, parseCase rest with
-      | some o, some (h, os) => dumpAll (projectHeader cvFloat o h) (os.filterMap (project o))
+      | some o, some (h, os) => dumpAll (projectHeader o h) (os.filterMap (project o))
       | _, _ => "bad-op"
     | "spec" :: ch =>
       match PbfSpec.parseChoices ch, parseCase rest with
